@@ -766,4 +766,78 @@ theorem searchLoop_intact (doRead : Dir → Nat → List Item) (b : Nat) (fs : D
       subst h1
       exact ih (fun g hg => hf g (List.mem_cons_of_mem _ hg)) c'
 
+/-! ### the line scan of the reader -/
+
+theorem scanEnd_append (bs es : Nat) (res : Bytes) (a b : List Item) :
+    scanEnd bs es res (a ++ b)
+      = if (scanEnd bs es res a).2 then ((scanEnd bs es res a).1 ++ (scanEnd bs es res b).1, (scanEnd bs es res b).2)
+        else ((scanEnd bs es res a).1, false) := by
+  induction a with
+  | nil => simp [scanEnd]
+  | cons it r ih =>
+    simp only [List.cons_append, scanEnd]
+    split_ifs with h1 h2 h3 h4 <;> simp_all
+
+theorem readByEndRest_eq (bs es : Nat) (res : Bytes) (fs : Dir) :
+    readByEndRest bs es res fs = (scanEnd bs es res (fs.flatMap fun f => itemsFrom f.data 0)).1 := by
+  induction fs with
+  | nil => rfl
+  | cons f r ih =>
+    simp only [readByEndRest, List.flatMap_cons, scanEnd_append]
+    split_ifs with h <;> simp_all
+
+theorem readByEnd_eq (f : File) (r : Dir) (off b e : Nat) (res : Bytes) :
+    readByEnd (f :: r) off b e res
+      = (scanEnd (b / 1000) (e / 1000) res (itemsFrom f.data off ++ r.flatMap fun g => itemsFrom g.data 0)).1 := by
+  simp only [readByEnd, scanEnd_append, readByEndRest_eq]
+  split_ifs with h <;> simp_all
+
+/-- on an ordered list that starts not before `begin` the scan is the filter -/
+theorem scanEnd_sorted (bs es : Nat) (res : Bytes) (l : List Item) (hs : l.Pairwise secLe)
+    (hb : ∀ it ∈ l, bs ≤ it.ts / 1000) :
+    (scanEnd bs es res l).1 = l.filter fun it => decide (it.ts / 1000 ≤ es) && resMatch res it := by
+  induction l with
+  | nil => rfl
+  | cons it r ih =>
+    have hr := ih (List.Pairwise.of_cons hs) (fun x hx => hb x (List.mem_cons_of_mem _ hx))
+    have hit := hb it (by simp)
+    unfold scanEnd
+    by_cases h1 : it.ts / 1000 < bs ∨ it.ts / 1000 > es
+    · rw [if_pos h1]
+      have hgt : it.ts / 1000 > es := by omega
+      symm
+      rw [List.filter_eq_nil_iff]
+      intro x hx
+      have : it.ts / 1000 ≤ x.ts / 1000 := by
+        rcases List.mem_cons.1 hx with rfl | hx
+        · exact le_refl _
+        · exact List.rel_of_pairwise_cons hs hx
+      have : ¬ x.ts / 1000 ≤ es := by omega
+      simp [this]
+    · rw [if_neg h1]
+      have hle : it.ts / 1000 ≤ es := by omega
+      simp only [List.filter_cons, hle, decide_true, Bool.true_and]
+      rw [← hr]
+
+theorem itemsFrom_serialise_zero (its : List Item) (hv : ∀ it ∈ its, Valid it) : itemsFrom (serialise its) 0 = its := by
+  unfold itemsFrom
+  rw [List.drop_zero, splitLines_serialise its hv, filterMap_parse_fat its hv]
+
+theorem itemsFrom_serialise_at (its : List Item) (hv : ∀ it ∈ its, Valid it) (j : Nat) :
+    itemsFrom (serialise its) (serialise (its.take j)).length = its.drop j := by
+  unfold itemsFrom
+  have e : (serialise its).drop (serialise (its.take j)).length = serialise (its.drop j) := by
+    conv_lhs => arg 2; rw [← List.take_append_drop j its, serialise_append]
+    exact List.drop_left
+  rw [e, splitLines_serialise _ (fun x hx => hv x (List.mem_of_mem_drop hx)),
+    filterMap_parse_fat _ (fun x hx => hv x (List.mem_of_mem_drop hx))]
+
+theorem flatMap_itemsFrom (fs : Dir) (h : ∀ f ∈ fs, FileOK f ∧ ∀ it ∈ f.lines, Valid it) :
+    (fs.flatMap fun g => itemsFrom g.data 0) = retained fs := by
+  induction fs with
+  | nil => rfl
+  | cons f r ih =>
+    simp only [List.flatMap_cons, retained] at ih ⊢
+    rw [ih (fun g hg => h g (List.mem_cons_of_mem _ hg)), (h f (by simp)).1.1, itemsFrom_serialise_zero _ (h f (by simp)).2]
+
 end Sentinel.MetricLog
